@@ -1,4 +1,362 @@
 package main
 
-func genC14(tier string, n int, seed int64) {}
-func execC14()                              {}
+import (
+	"bufio"
+	"encoding/json"
+	"fmt"
+	"os"
+	"regexp"
+	"sort"
+	"strings"
+
+	"github.com/ohler55/ojg/jp"
+
+	"verif/harness/absval"
+)
+
+// ---------------------------------------------------------------- C14: print / parse / print / evaluate
+
+type c14case struct {
+	K    string `json:"k"`              // "path" | "eq"
+	Cell string `json:"cell"`           // the generator's coordinates (fragment kinds, key class, position / operator triple)
+	Fr   []Frag `json:"fr,omitempty"`   // path: fragments after the first
+	Root string `json:"root,omitempty"` // path: "$", "@" or "" (relative)
+	Ast  *AST   `json:"ast,omitempty"`  // eq
+	Elem *Abs   `json:"elem,omitempty"` // eq: the element the script is matched against
+}
+
+type c14event struct {
+	K    string   `json:"k"`
+	Cell string   `json:"cell"`
+	Form string   `json:"form"`
+	S1   []int    `json:"s1"`
+	Perr int      `json:"perr"`
+	Pmsg string   `json:"pmsg"`
+	S2   []int    `json:"s2"`
+	Eo   []string `json:"eo"`
+	Er   []string `json:"er"`
+	Ast  *AST     `json:"ast,omitempty"`
+	Elem *Abs     `json:"elem,omitempty"`
+	Mo   int      `json:"mo"`
+	Mr   int      `json:"mr"`
+	Case *c14case `json:"case"`
+}
+
+var keyUniverse = []struct{ cls, key string }{
+	{"plain", "a"}, {"empty", ""}, {"quote", "a'b"}, {"dquote", "a\"b"}, {"backslash", "a\\b"}, {"control", "a\nb"}, {"ctl01", "a\x01b"},
+	{"nonascii", "é"}, {"rbracket", "a]b"}, {"lbracket", "a[b"}, {"space", "a b"}, {"dot", "a.b"}, {"number", "12"}, {"negnum", "-1"},
+	{"operator", "=="}, {"star", "*"}, {"at", "@"}, {"dollar", "$x"}, {"comma", "a,b"}, {"colon", "a:b"}, {"question", "?a"}, {"paren", "(a)"},
+	{"del", "a\x7fb"}, {"u2028", "a b"}, {"badutf8", "a\xffb"},
+}
+
+func c14doc() any {
+	inner := func(i int) any {
+		return []any{int64(10 + i), map[string]any{"a": int64(i), "b": []any{int64(i)}}, []any{int64(i), int64(i + 1), int64(i + 2)}, "s"}
+	}
+	doc := map[string]any{}
+	for i, k := range keyUniverse {
+		doc[k.key] = inner(i)
+	}
+	doc["b"] = map[string]any{"a": inner(50), "c": int64(3)}
+	return doc
+}
+
+func canon(vs []any) []string {
+	out := make([]string, len(vs))
+	for i, v := range vs {
+		b, _ := json.Marshal(absval.Encode(v))
+		out[i] = string(b)
+	}
+	sort.Strings(out) // bag projection: object members come in map order
+	return out
+}
+
+func safeGet(x jp.Expr, doc any) (res []string) {
+	defer func() {
+		if r := recover(); r != nil {
+			res = []string{"panic: " + clip(fmt.Sprint(r))}
+		}
+	}()
+	return canon(x.Get(doc))
+}
+
+func safeStr(f func() string) (s string, perr string) {
+	defer func() {
+		if r := recover(); r != nil {
+			perr = "panic: " + clip(fmt.Sprint(r))
+		}
+	}()
+	return f(), ""
+}
+
+func runC14(c *c14case) []*c14event {
+	var evs []*c14event
+	mk := func(form string) *c14event {
+		return &c14event{K: c.K, Cell: c.Cell, Form: form, Ast: c.Ast, Elem: c.Elem, Mo: -1, Mr: -1, Case: c, S1: []int{}, S2: []int{}, Eo: []string{}, Er: []string{}}
+	}
+	if c.K == "path" {
+		var x jp.Expr
+		switch c.Root {
+		case "$":
+			x = jp.R()
+		case "@":
+			x = jp.A()
+		default:
+			x = jp.X()
+		}
+		x = appendFrags(x, c.Fr)
+		doc := c14doc()
+		for _, form := range []string{"Expr.String", "Expr.BracketString"} {
+			ev := mk(form)
+			s1, perr := safeStr(func() string {
+				if form == "Expr.String" {
+					return x.String()
+				}
+				return x.BracketString()
+			})
+			ev.S1 = ints(s1)
+			ev.Eo = safeGet(x, doc)
+			if perr != "" {
+				ev.Perr, ev.Pmsg = 2, perr
+			} else if y, err := jp.ParseString(s1); err != nil {
+				ev.Perr, ev.Pmsg = 1, clip(err.Error())
+			} else {
+				s2, _ := safeStr(func() string {
+					if form == "Expr.String" {
+						return y.String()
+					}
+					return y.BracketString()
+				})
+				ev.S2 = ints(s2)
+				ev.Er = safeGet(y, doc)
+			}
+			evs = append(evs, ev)
+		}
+		return evs
+	}
+	elem := c.Elem.Simple()
+	match := func(f func() bool) (r int) {
+		defer func() {
+			if rec := recover(); rec != nil {
+				r = 2
+			}
+		}()
+		if f() {
+			return 1
+		}
+		return 0
+	}
+	for _, form := range []string{"Equation.String", "Script.String", "Filter.String"} {
+		ev := mk(form)
+		var s1, perr string
+		switch form {
+		case "Equation.String":
+			s1, perr = safeStr(func() string { return c.Ast.Build().String() })
+		case "Script.String":
+			s1, perr = safeStr(func() string { return c.Ast.Build().Script().String() })
+		default:
+			s1, perr = safeStr(func() string { return jp.R().F(c.Ast.Build()).String() })
+		}
+		ev.S1 = ints(s1)
+		ev.Mo = match(func() bool { return c.Ast.Build().Script().Match(elem) })
+		ev.Eo = []string{fmt.Sprint(ev.Mo)}
+		if perr != "" {
+			ev.Perr, ev.Pmsg = 2, perr
+			evs = append(evs, ev)
+			continue
+		}
+		var s2 string
+		var re func() bool
+		var err error
+		switch form {
+		case "Equation.String":
+			var e2 *jp.Equation
+			s2, perr = safeStr(func() string { e2 = jp.MustParseEquation(s1); return e2.String() })
+			re = func() bool { return e2.Script().Match(elem) }
+		case "Script.String":
+			var sc *jp.Script
+			if sc, err = jp.NewScript(s1); err == nil {
+				s2 = sc.String()
+				re = func() bool { return sc.Match(elem) }
+			}
+		default:
+			var y jp.Expr
+			if y, err = jp.ParseString(s1); err == nil {
+				s2 = y.String()
+				re = func() bool { return len(y.Get([]any{elem})) == 1 }
+			}
+		}
+		if err != nil {
+			ev.Perr, ev.Pmsg = 1, clip(err.Error())
+		} else if perr != "" {
+			ev.Perr, ev.Pmsg = 1, perr
+		} else {
+			ev.S2 = ints(s2)
+			ev.Mr = match(re)
+			ev.Er = []string{fmt.Sprint(ev.Mr)}
+		}
+		evs = append(evs, ev)
+	}
+	return evs
+}
+
+func execC14() {
+	sc := bufio.NewScanner(os.Stdin)
+	sc.Buffer(make([]byte, 1<<20), 1<<28)
+	wr := bufio.NewWriterSize(os.Stdout, 1<<20)
+	for sc.Scan() {
+		if len(sc.Bytes()) == 0 {
+			continue
+		}
+		var c c14case
+		if err := json.Unmarshal(sc.Bytes(), &c); err != nil {
+			fmt.Fprintln(os.Stderr, "bad case:", err)
+			os.Exit(2)
+		}
+		for _, ev := range runC14(&c) {
+			b, err := json.Marshal(ev)
+			if err != nil {
+				fmt.Fprintln(os.Stderr, "marshal:", err)
+				os.Exit(2)
+			}
+			wr.Write(b)
+			wr.WriteByte('\n')
+		}
+	}
+	wr.Flush()
+}
+
+// ---------------------------------------------------------------- generation
+func genC14(tier string, n int, seed int64) {
+	wr := bufio.NewWriterSize(os.Stdout, 1<<20)
+	emit := func(c *c14case) {
+		b, err := json.Marshal(c)
+		if err != nil {
+			panic(err)
+		}
+		wr.Write(b)
+		wr.WriteByte('\n')
+	}
+	// ---- paths: fragment menu
+	type fr struct {
+		cell string
+		f    Frag
+	}
+	var menu []fr
+	for _, k := range keyUniverse {
+		menu = append(menu, fr{"child(" + k.cls + ")", Frag{F: "child", K: ints(k.key)}})
+	}
+	for _, i := range []int{0, 1, -1, 12} {
+		menu = append(menu, fr{fmt.Sprintf("nth(%d)", i), Frag{F: "nth", I: i}})
+	}
+	menu = append(menu, fr{"wild", Frag{F: "wild"}}, fr{"descent", Frag{F: "desc"}})
+	uk := func(s string) UItem { return UItem{Is: true, K: ints(s)} }
+	ui := func(i int) UItem { return UItem{I: i} }
+	menu = append(menu,
+		fr{"union(ints)", Frag{F: "union", U: []UItem{ui(0), ui(2)}}}, fr{"union(negint)", Frag{F: "union", U: []UItem{ui(-1), ui(0)}}},
+		fr{"union(keys)", Frag{F: "union", U: []UItem{uk("a"), uk("b")}}}, fr{"union(mixed)", Frag{F: "union", U: []UItem{uk("a"), ui(1)}}},
+		fr{"union(single)", Frag{F: "union", U: []UItem{uk("a")}}}, fr{"union(empty)", Frag{F: "union", U: []UItem{}}})
+	for _, k := range keyUniverse[1:] {
+		menu = append(menu, fr{"union(key " + k.cls + ")", Frag{F: "union", U: []UItem{uk("a"), uk(k.key)}}})
+	}
+	maxEnd := 2147483647
+	for _, s := range [][]int{{0}, {1}, {-2}, {0, 2}, {1, 3}, {1, -1}, {0, maxEnd}, {1, maxEnd}, {0, 3, 2}, {1, 3, 1}, {3, 0, -1}, {0, maxEnd, 2}, {1, maxEnd, 2}, {-1, 0, -2}, {0, -1, 1}, {1, 2, 3, 4}} {
+		menu = append(menu, fr{fmt.Sprintf("slice%v", s), Frag{F: "slice", S: s}})
+	}
+	one := &AST{Op: "const", V: &Abs{T: "int", I: 1}}
+	menu = append(menu,
+		fr{"filter(@.a==1)", Frag{F: "filter", E: &AST{Op: "==", L: pth("@", "a"), R: one}}},
+		fr{"filter(@[0]>1)", Frag{F: "filter", E: &AST{Op: ">", L: pth("@", "0"), R: one}}},
+		fr{"filter(nested)", Frag{F: "filter", E: &AST{Op: "exists", L: &AST{Op: "path", Root: "@", Fr: []Frag{{F: "filter", E: &AST{Op: "==", L: pth("@"), R: one}}}}, R: &AST{Op: "const", V: &Abs{T: "bool", B: true}}}}},
+		fr{"root", Frag{F: "root"}}, fr{"at", Frag{F: "at"}}, fr{"bracket", Frag{F: "bracket"}})
+	small := []fr{menu[0], menu[2], menu[12], {"nth(0)", Frag{F: "nth", I: 0}}, {"wild", Frag{F: "wild"}}, {"descent", Frag{F: "desc"}},
+		{"union(keys)", Frag{F: "union", U: []UItem{uk("a"), uk("b")}}}, {"slice[1 3]", Frag{F: "slice", S: []int{1, 3}}},
+		{"filter(@.a==1)", Frag{F: "filter", E: &AST{Op: "==", L: pth("@", "a"), R: one}}}}
+	for _, root := range []string{"$", "@", ""} {
+		for _, a := range menu {
+			emit(&c14case{K: "path", Cell: a.cell + " pos=only root=" + root, Root: root, Fr: []Frag{a.f}})
+			if root != "$" {
+				continue
+			}
+			for _, b := range small {
+				emit(&c14case{K: "path", Cell: a.cell + " pos=first next=" + b.cell, Root: root, Fr: []Frag{a.f, b.f}})
+				emit(&c14case{K: "path", Cell: a.cell + " pos=last prev=" + b.cell, Root: root, Fr: []Frag{b.f, a.f}})
+				if tier != "quick" {
+					for _, c := range small {
+						emit(&c14case{K: "path", Cell: a.cell + " pos=middle prev=" + b.cell + " next=" + c.cell, Root: root, Fr: []Frag{b.f, a.f, c.f}})
+						emit(&c14case{K: "path", Cell: a.cell + " pos=last4 prev=" + b.cell + " via=" + c.cell, Root: root, Fr: []Frag{b.f, c.f, b.f, a.f}})
+					}
+				}
+			}
+		}
+	}
+	// ---- equations: every (parent op, child op, side) triple
+	ops := []string{"*", "/", "+", "-", "<", ">=", "==", "!=", "&&", "||", "in", "has", "=~"}
+	isLogic := func(o string) bool { return o == "&&" || o == "||" || o == "!" }
+	ival := func(i int64) *AST { return &AST{Op: "const", V: &Abs{T: "int", I: i}} }
+	bval := func(b bool) *AST { return &AST{Op: "const", V: &Abs{T: "bool", B: b}} }
+	leafFor := func(o string, variant, pos int) *AST {
+		if isLogic(o) || o == "has" {
+			return bval([][]bool{{true, false, true}, {false, true, false}, {false, false, true}}[variant][pos])
+		}
+		return ival([][]int64{{1, 2, 3}, {3, 1, 2}, {2, 3, 1}}[variant][pos])
+	}
+	mkChild := func(o string, v int) *AST {
+		if o == "!" {
+			return &AST{Op: "!", L: leafFor(o, v, 0)}
+		}
+		return &AST{Op: o, L: leafFor(o, v, 0), R: leafFor(o, v, 1)}
+	}
+	null := &Abs{T: "null"}
+	for _, p := range append([]string{"!"}, ops...) {
+		for _, ch := range append([]string{"!"}, ops...) {
+			for v := 0; v < 3; v++ {
+				if p == "!" {
+					emit(&c14case{K: "eq", Cell: "parent=! child=" + ch, Ast: &AST{Op: "!", L: mkChild(ch, v)}, Elem: null})
+					continue
+				}
+				emit(&c14case{K: "eq", Cell: "parent=" + p + " child=" + ch + " side=left", Ast: &AST{Op: p, L: mkChild(ch, v), R: leafFor(p, v, 2)}, Elem: null})
+				emit(&c14case{K: "eq", Cell: "parent=" + p + " child=" + ch + " side=right", Ast: &AST{Op: p, L: leafFor(p, v, 2), R: mkChild(ch, v)}, Elem: null})
+				if tier != "quick" {
+					for _, ch2 := range []string{"!", "*", "+", "==", "&&", "||"} {
+						emit(&c14case{K: "eq", Cell: "parent=" + p + " child=" + ch + " side=both", Ast: &AST{Op: p, L: mkChild(ch, v), R: mkChild(ch2, (v+1)%3)}, Elem: null})
+					}
+				}
+			}
+		}
+	}
+	// ---- constants of every kind, compared with the element itself
+	consts := []any{nil, true, false, int64(0), int64(-7), int64(1234567), 1.5, 2.0, -0.25, 1e21, 1e-7, 0.1234567, 1234567.25, "", "a", "a'b", "a\"b", "a\\b", "a\nb", "a\tb", "a\x01b", "é", "a b", "a/b",
+		[]any{}, []any{int64(1)}, []any{int64(1), "a'b", 1.5, true, nil}}
+	for _, cv := range consts {
+		a := absOf(cv)
+		cell := "const(" + a.T + ")"
+		if s, ok := cv.(string); ok {
+			cell = "const(str " + fmt.Sprintf("%q", s) + ")"
+		}
+		if f, ok := cv.(float64); ok {
+			cell = fmt.Sprintf("const(flt %v)", f)
+		}
+		el := a
+		if a.T == "arr" {
+			el = absOf(int64(1))
+			emit(&c14case{K: "eq", Cell: cell + " in", Ast: &AST{Op: "in", L: pth("@"), R: &AST{Op: "const", V: a}}, Elem: el})
+			continue
+		}
+		emit(&c14case{K: "eq", Cell: cell + " ==", Ast: &AST{Op: "==", L: pth("@"), R: &AST{Op: "const", V: a}}, Elem: el})
+		emit(&c14case{K: "eq", Cell: cell + " left", Ast: &AST{Op: "==", L: &AST{Op: "const", V: a}, R: pth("@")}, Elem: el})
+	}
+	emit(&c14case{K: "eq", Cell: "const(nothing)", Ast: &AST{Op: "==", L: pth("@", "zz"), R: &AST{Op: "const", V: &Abs{T: "nothing"}}}, Elem: null})
+	for _, p := range []string{"a", "^a.", "a/b", "a\\.b", "(?i)A"} {
+		regexp.MustCompile(p)
+		emit(&c14case{K: "eq", Cell: "const(rx " + p + ")", Ast: &AST{Op: "=~", L: pth("@"), R: &AST{Op: "const", V: &Abs{T: "rx", P: ints(p)}}}, Elem: absOf("a/b")})
+	}
+	for _, fn := range []string{"length", "count"} {
+		emit(&c14case{K: "eq", Cell: "func " + fn, Ast: &AST{Op: "==", L: &AST{Op: fn, L: pth("@", "*")}, R: ival(2)}, Elem: absOf([]any{int64(1), int64(2)})})
+	}
+	for _, fn := range []string{"match", "search"} {
+		emit(&c14case{K: "eq", Cell: "func " + fn, Ast: &AST{Op: fn, L: pth("@"), R: &AST{Op: "const", V: absOf("a.")}}, Elem: absOf("ab")})
+	}
+	_ = strings.Join
+	wr.Flush()
+}
